@@ -499,3 +499,117 @@ Example countered_example :
   /\ delete_vs_patch default_counters 3 [DPatch (KS (of_ascii "metadata"%string)) [DReplace (KS (of_ascii "collapsed"%string)) (JBool true)]]
        cell_path default_transients = TakeDeletion.
 Proof. vm_compute. split; reflexivity. Qed.
+
+(* ------------------------------------------------------------------ the built-in rendering read back: variants sit in their branches *)
+Lemma not_marker_parts l :
+  is_marker l = false -> marker_of 60 l = false /\ marker_of 61 l = false /\ marker_of 62 l = false /\ marker_of 124 l = false.
+Proof.
+  unfold is_marker. intros H. apply orb_false_iff in H. destruct H as [H H4].
+  apply orb_false_iff in H. destruct H as [H H3]. apply orb_false_iff in H. destruct H as [H1 H2]. auto.
+Qed.
+
+Lemma branches_plain z ls rest :
+  no_markers ls = true ->
+  branches z (ls ++ rest) =
+  match z with
+  | InLocal => (ls ++ fst (branches z rest), snd (branches z rest))
+  | InRemote => (fst (branches z rest), ls ++ snd (branches z rest))
+  | _ => branches z rest
+  end.
+Proof.
+  induction ls as [|l ls IH]; intros H.
+  - simpl. destruct z; destruct (branches _ rest); reflexivity.
+  - simpl in H. apply andb_true_iff in H. destruct H as [Hl Hls]. apply negb_true_iff in Hl.
+    destruct (not_marker_parts l Hl) as (M1 & M2 & M3 & M4).
+    change ((l :: ls) ++ rest) with (l :: (ls ++ rest)). cbn [branches]. rewrite M1, M4, M2, M3.
+    rewrite (IH Hls). destruct z; destruct (branches _ rest); reflexivity.
+Qed.
+
+Lemma no_markers_app a b : no_markers (a ++ b) = true <-> no_markers a = true /\ no_markers b = true.
+Proof. unfold no_markers. rewrite forallb_app. apply andb_true_iff. Qed.
+
+Lemma no_markers_sub a b : (forall x, In x a -> In x b) -> no_markers b = true -> no_markers a = true.
+Proof.
+  unfold no_markers. intros S H. rewrite forallb_forall in *. intros x Hx. apply H. apply S. exact Hx.
+Qed.
+
+Lemma branches_block P L R Q s0 s2 s3 :
+  no_markers P = true -> no_markers L = true -> no_markers R = true -> no_markers Q = true ->
+  (forall z r, branches z (s0 :: r) = branches InLocal r) ->
+  (forall r, branches InLocal (s2 :: r) = branches InRemote r) ->
+  (forall r, branches InRemote (s3 :: r) = branches Outside r) ->
+  branches Outside (P ++ s0 :: L ++ s2 :: R ++ s3 :: Q) = (L, R).
+Proof.
+  intros HP HL HR HQ S0 S2 S3.
+  rewrite (branches_plain Outside P _ HP). rewrite S0.
+  rewrite (branches_plain InLocal L _ HL). rewrite S2.
+  rewrite (branches_plain InRemote R _ HR). rewrite S3.
+  replace Q with (Q ++ []) by apply app_nil_r. rewrite (branches_plain Outside Q [] HQ).
+  cbn [branches fst snd]. rewrite !app_nil_r. reflexivity.
+Qed.
+
+Lemma branches_assembled pre lo re post :
+  no_markers (map chomp pre) = true -> no_markers (map chomp lo) = true ->
+  no_markers (map chomp re) = true -> no_markers (map chomp post) = true ->
+  branches Outside (map chomp (assembled pre lo re post)) = (map chomp lo, map chomp re).
+Proof.
+  intros Hp Hl Hr Hq. unfold assembled. rewrite !map_app. cbn [map app].
+  apply branches_block; try assumption; intros; reflexivity.
+Qed.
+
+Lemma diff_pos_in_tail {A} (p a b : list A) i x y :
+  nth_error (p ++ a) i = Some x -> nth_error (p ++ b) i = Some y -> x <> y -> In x a /\ In y b.
+Proof.
+  revert i. induction p as [|h p IH]; intros i Hx Hy N.
+  - simpl in *. split; eapply nth_error_In; eassumption.
+  - destruct i as [|i]; simpl in *.
+    + inversion Hx; inversion Hy; subst. contradiction.
+    + eapply IH; eassumption.
+Qed.
+
+Lemma clash_at_nth bl ll rl allb x y :
+  In (x, y) (clash_at bl ll rl allb) ->
+  exists i, nth_error ll i = Some x /\ nth_error rl i = Some y /\ x <> y.
+Proof.
+  revert ll rl. induction bl as [|b bl IH]; intros ll rl H; [destruct H|].
+  destruct ll as [|l ll]; [destruct H|]. destruct rl as [|r rl]; [destruct H|].
+  cbn [clash_at] in H.
+  destruct (negb (pystr_eqb l b) && negb (pystr_eqb r b) && negb (pystr_eqb l r) && negb (mem l allb) &&
+            negb (mem r allb) && nonblank l && nonblank r) eqn:E.
+  - destruct H as [H|H].
+    + inversion H; subst. exists O. repeat split.
+      repeat (apply andb_true_iff in E; destruct E as [E ?]).
+      match goal with K : negb (pystr_eqb x y) = true |- _ => apply negb_true_iff in K; intro Q; subst; rewrite pystr_eqb_refl in K; discriminate end.
+    + destruct (IH _ _ H) as (i & A & B & C). exists (S i). auto.
+  - destruct (IH _ _ H) as (i & A & B & C). exists (S i). auto.
+Qed.
+
+(* Flagging for the built-in renderer, no hypothesis: if both sides rewrite the same position to different fresh lines
+   (and no input line looks like a marker), the local variant is in the local branch and the remote variant in the remote
+   branch of the rendered conflict block, and the status is 1. *)
+Theorem builtin_flags_variants base local remote x y :
+  In (x, y) (clashes base local remote) ->
+  snd (builtin_merge_render base local remote) = 1%Z /\
+  let out := map chomp (format_merge_render_lines (splitlines base) (splitlines local) (splitlines remote)) in
+  In x (fst (branches Outside out)) /\ In y (snd (branches Outside out)).
+Proof.
+  unfold clashes, tlines. intros H.
+  destruct ((length (map chomp (splitlines base)) =? length (map chomp (splitlines local)))%nat &&
+            (length (map chomp (splitlines base)) =? length (map chomp (splitlines remote)))%nat &&
+            no_markers (map chomp (splitlines base)) && no_markers (map chomp (splitlines local)) &&
+            no_markers (map chomp (splitlines remote))) eqn:E; [|destruct H].
+  apply andb_true_iff in E. destruct E as [E Nr]. apply andb_true_iff in E. destruct E as [E Nl].
+  destruct (clash_at_nth _ _ _ _ _ _ H) as (i & Hx & Hy & Nxy).
+  assert (Ne : local <> remote).
+  { intro Q. subst. rewrite Hx in Hy. inversion Hy. contradiction. }
+  split.
+  - unfold builtin_merge_render. destruct (pystr_eqb local remote) eqn:Q; [apply pystr_eqb_eq in Q; contradiction | reflexivity].
+  - cbv zeta.
+    destruct (fmr_chomp (splitlines base) (splitlines local) (splitlines remote)) as (pre & lo & re & post & A & B & C & D).
+    rewrite D. rewrite A in Nl, Hx. rewrite B in Nr, Hy. rewrite map_app in *.
+    apply no_markers_app in Nl. destruct Nl as [Np Nlo]. apply no_markers_app in Nr. destruct Nr as [_ Nre].
+    rewrite branches_assembled; try assumption.
+    + cbn [fst snd]. eapply diff_pos_in_tail; eassumption.
+    + apply (no_markers_sub _ (map chomp lo)); [|assumption].
+      intros z Hz. apply in_map_iff in Hz. destruct Hz as (w & <- & Hw). apply in_map. auto.
+Qed.
